@@ -513,19 +513,46 @@ def rule_r6(ctx) -> RuleResult:
              if isinstance(c, ast.Call) and unparse(c.func) in ("re.match", "re.fullmatch", "re.search") and c.args]
     gates += [c for c in ast.walk(blocks[0].test)
               if isinstance(c, ast.Call) and unparse(c.func) in ("re.match", "re.fullmatch", "re.search") and c.args]
+    gates = [(g, "parser.check_for_attributes") for g in gates]
+    # every other place where a text child is taken for an attribute section: a regex test on the very
+    # value that is then passed to parse_attrs()
+    for dotted, m, f in ctx.index.all_functions():
+        if not dotted.startswith("parser.") or dotted == "parser.check_for_attributes":
+            continue
+        passed = {unparse(c.args[1]) for c in walk_no_nested(f) if isinstance(c, ast.Call) and unparse(c.func) == "parse_attrs" and len(c.args) == 2
+                  and isinstance(c.args[1], ast.Name)}
+        if not passed:
+            continue
+        for c in walk_no_nested(f):
+            if not isinstance(c, ast.Call):
+                continue
+            fn_ = unparse(c.func)
+            if fn_ in ("re.match", "re.fullmatch", "re.search") and len(c.args) >= 2 and unparse(c.args[1]) in passed:
+                gates.append((c, dotted))
+            elif isinstance(c.func, ast.Attribute) and c.func.attr in ("match", "fullmatch", "search") and c.args and unparse(c.args[0]) in passed \
+                    and isinstance(c.func.value, ast.Name):
+                # compiled pattern: normalise to the re.<method>(pattern, value) shape
+                g2 = ast.Call(func=ast.Attribute(value=ast.Name(id="re", ctx=ast.Load()), attr=c.func.attr, ctx=ast.Load()),
+                              args=[c.func.value, c.args[0]], keywords=[])
+                ast.copy_location(g2, c)
+                ast.fix_missing_locations(g2)
+                gates.append((g2, dotted))
     if not gates:
         rr.ok("parser.check_for_attributes", "a single text child is accepted as attribute text unconditionally", {"gates": 0})
         return rr
-    for g in gates:
+    for g, where in gates:
         try:
             pat = ctx.index.fold("parser", g.args[0])
         except Exception:  # noqa: BLE001
             raise AnalysisError("check_for_attributes: gate pattern {} not foldable".format(unparse(g.args[0])))
-        cex = rx.included_in_prefix(EMITTED_ATTRS, str(pat), thorough=ctx.thorough, full=(unparse(g.func) == "re.fullmatch"))
+        emitted = EMITTED_ATTRS if where == "parser.check_for_attributes" else r"\s*" + EMITTED_ATTRS + r"\s*"
+        if unparse(g.func) == "re.search":
+            continue  # a search() gate accepts supersets; its anchoring is C03.R11's concern
+        cex = rx.included_in_prefix(emitted, str(pat), thorough=ctx.thorough, full=(unparse(g.func) == "re.fullmatch"))
         if cex is None:
-            rr.ok("parser.check_for_attributes", "gate {} accepts every emitted attribute line".format(unparse(g.args[0])), {"gate": str(pat)[:80]})
+            rr.ok(where, "gate {} accepts every emitted attribute line".format(unparse(g.args[0])), {"gate": str(pat)[:80]})
         else:
-            rr.bad(Finding("C19.R6", "src/wikitextprocessor/parser.py", "parser.check_for_attributes", unparse(g)[:80],
+            rr.bad(Finding("C19.R6", "src/wikitextprocessor/parser.py", where, unparse(g)[:80],
                            "to_attrs() can write the attribute line {!r} (a bare name for an empty value) but this test rejects it: after a "
                            "round trip the row/table has no attributes and the text shows up as content".format(cex), g.lineno))
     return rr
